@@ -62,7 +62,7 @@ impl Property for C15 {
         "C15"
     }
     fn rule(&self) -> String {
-        "Generated: own-token streams of 0..14 tokens (number words of every class, speller phrases, ordinals, conjunction / separator / linking / ordinary words, punctuation and whitespace tokens), optionally repeated up to 40 times, with per-token 'separated from predecessor' hints (carried either as a flag on the token or as a pause recorded on the preceding token and read through the `previous` argument of nt_separated) and 'not a number part' hints placed only on tokens the scanner looks at (never on whitespace-only or bare '-' tokens) and forced, in half of the cases, onto a token inside what would otherwise be one number (incl. right after a conjunction or separator word); any threshold. Oracle: (1) collect(find_numbers_iter) == find_numbers, two more next() calls after None return None, and fold / for_each / count / last / nth+rest / nth and skip beyond the end / step_by / peekable / size_hint (also over an input whose own size_hint is (0, Some(usize::MAX)) or (0, None), asked before and after every step) agree with it, and two lazy searches over the same tokens advanced alternately (the second with threshold 0) give the two batch results; hyphenated words are sometimes given as separate tokens with a bare '-' between them; (2) laziness with a counting adaptor on the input: nothing is consumed before the first next(); when the k-th occurrence is yielded, the number of tokens consumed is <= the end of the (k+2)-th occurrence of the batch result when that exists; (3) for every hinted token i with predecessor j (previous non-skipped token): no occurrence contains both; and the stream with that hint cleared and a ',' token inserted before i yields the same occurrences after index mapping; (4) no occurrence contains a token flagged 'not a number part'. Non-trivial = distinct streams where a hint falls inside what the unhinted stream reads as one number, or with >= 4 occurrences (needed for the look-ahead bound).".into()
+        "Generated: own-token streams of 0..14 tokens (number words of every class, speller phrases, ordinals, conjunction / separator / linking / ordinary words, punctuation and whitespace tokens; one stream in four without any whitespace token, so that occurrences can be directly adjacent), optionally repeated up to 40 times, with per-token 'separated from predecessor' hints (carried either as a flag on the token or as a pause recorded on the preceding token and read through the `previous` argument of nt_separated) and 'not a number part' hints placed only on tokens the scanner looks at (never on whitespace-only or bare '-' tokens) and forced, in half of the cases, onto a token inside what would otherwise be one number (incl. right after a conjunction or separator word); any threshold. Oracle: (1) collect(find_numbers_iter) == find_numbers, two more next() calls after None return None, and fold / for_each / count / last / nth+rest / nth and skip beyond the end / step_by / peekable / size_hint (also over an input whose own size_hint is (0, Some(usize::MAX)) or (0, None), asked before and after every step) agree with it, and two lazy searches over the same tokens advanced alternately (the second with threshold 0) give the two batch results; hyphenated words are sometimes given as separate tokens with a bare '-' between them; (2) laziness with a counting adaptor on the input: nothing is consumed before the first next(); when the k-th occurrence is yielded, the number of tokens consumed is <= the end of the (k+2)-th occurrence of the batch result when that exists; (3) for every hinted token i with predecessor j (previous non-skipped token): no occurrence contains both; and the stream with that hint cleared and a ',' token inserted before i yields the same occurrences after index mapping; (4) no occurrence contains a token flagged 'not a number part'. Non-trivial = distinct streams where a hint falls inside what the unhinted stream reads as one number, or with >= 4 occurrences (needed for the look-ahead bound).".into()
     }
     fn assumptions(&self) -> Vec<String> {
         vec!["hints are generated on tokens the scanner examines only: whitespace-only and bare '-' tokens are dropped before hints are read, and no real annotator flags them".into()]
